@@ -13,6 +13,8 @@ structure HelperRow where
   insMode : Option Nat
   dirMode : Option Nat
   forcedIns : Bool
+  insOwner : Option Nat
+  insGroup : Option Nat
 def eapis : List EapiRow := [
   ⟨"0", false, false, false, false, false, [".7Z", ".7z", ".LHA", ".LHa", ".RAR", ".Z", ".ZIP", ".a", ".bz2", ".deb", ".gz", ".jar", ".lha", ".lzh", ".lzma", ".rar", ".tar", ".tar.Z", ".tar.bz2", ".tar.gz", ".tar.lzma", ".tar.z", ".tbz", ".tbz2", ".tgz", ".z", ".zip"]⟩,
   ⟨"1", false, false, false, false, false, [".7Z", ".7z", ".LHA", ".LHa", ".RAR", ".Z", ".ZIP", ".a", ".bz2", ".deb", ".gz", ".jar", ".lha", ".lzh", ".lzma", ".rar", ".tar", ".tar.Z", ".tar.bz2", ".tar.gz", ".tar.lzma", ".tar.z", ".tbz", ".tbz2", ".tgz", ".z", ".zip"]⟩,
@@ -24,21 +26,21 @@ def eapis : List EapiRow := [
   ⟨"7", true, true, true, false, true, [".7Z", ".7z", ".LHA", ".LHa", ".RAR", ".Z", ".ZIP", ".a", ".bz2", ".deb", ".gz", ".jar", ".lha", ".lzh", ".lzma", ".rar", ".tar", ".tar.Z", ".tar.bz2", ".tar.gz", ".tar.lzma", ".tar.xz", ".tar.z", ".tbz", ".tbz2", ".tgz", ".txz", ".xz", ".z", ".zip"]⟩,
   ⟨"8", true, true, true, true, true, [".Z", ".ZIP", ".a", ".bz2", ".deb", ".gz", ".jar", ".lzma", ".tar", ".tar.Z", ".tar.bz2", ".tar.gz", ".tar.lzma", ".tar.xz", ".tar.z", ".tbz", ".tbz2", ".tgz", ".txz", ".xz", ".z", ".zip"]⟩]
 def helpers : List HelperRow := [
-  ⟨"doins", none, none, false⟩,
-  ⟨"dodoc", some 420, none, false⟩,
-  ⟨"dohtml", some 420, none, false⟩,
-  ⟨"doinfo", some 420, none, false⟩,
-  ⟨"dodir", none, some 493, false⟩,
-  ⟨"doexe", none, none, false⟩,
-  ⟨"dobin", some 493, none, true⟩,
-  ⟨"dosbin", some 493, none, true⟩,
-  ⟨"dolib", none, none, false⟩,
-  ⟨"dolib.so", none, none, false⟩,
-  ⟨"dolib.a", none, none, false⟩,
-  ⟨"doman", some 420, none, false⟩,
-  ⟨"domo", some 420, none, false⟩,
-  ⟨"dosym", none, none, false⟩,
-  ⟨"dohard", none, none, false⟩,
-  ⟨"keepdir", none, some 493, false⟩]
+  ⟨"doins", none, none, false, none, none⟩,
+  ⟨"dodoc", some 420, none, false, none, none⟩,
+  ⟨"dohtml", some 420, none, false, none, none⟩,
+  ⟨"doinfo", some 420, none, false, none, none⟩,
+  ⟨"dodir", none, some 493, false, none, none⟩,
+  ⟨"doexe", none, none, false, none, none⟩,
+  ⟨"dobin", some 493, none, true, some 0, some 0⟩,
+  ⟨"dosbin", some 493, none, true, some 0, some 0⟩,
+  ⟨"dolib", none, none, false, none, none⟩,
+  ⟨"dolib.so", none, none, false, none, none⟩,
+  ⟨"dolib.a", none, none, false, none, none⟩,
+  ⟨"doman", some 420, none, false, none, none⟩,
+  ⟨"domo", some 420, none, false, none, none⟩,
+  ⟨"dosym", none, none, false, none, none⟩,
+  ⟨"dohard", none, none, false, none, none⟩,
+  ⟨"keepdir", none, some 493, false, none, none⟩]
 def dohtmlDefaultExts : List String := ["css", "gif", "htm", "html", "jpeg", "jpg", "js", "png"]
 end Pkgcore.Generated.C33
